@@ -29,8 +29,8 @@ def gen_case(ctx, i):
     if i % 40 == 7:  # a large batch: 500-2000 local peaks refined in one call (counts that are not multiples of a block size)
         kind = "many"
         maps = r.random((int(r.integers(6, 11)), int(r.integers(6, 11)), int(r.integers(10, 15)), int(r.integers(10, 15))))
-        if (i // 40) % 20 == 1:  # few large noise maps: more than 4096 peaks in one call spread over several samples and channels
-            maps = r.random([(2, 3, 96, 96), (3, 2, 80, 112), (1, 4, 128, 96)][int(r.integers(0, 3))])
+        if (i // 40) % 20 == 1:  # many mid-size noise maps: more than 4096 peaks in one call spread over several samples and channels
+            maps = r.random([(6, 4, 48, 48), (4, 6, 40, 56), (3, 8, 48, 44)][int(r.integers(0, 3))])  # small maps: refinement copies a whole map per peak
         thr = float(r.choice([0.0, 0.2, 0.5]))
     if i % 400 == 13:  # a map with more than 512*512 cells carrying plateaus and ties (large inputs may take another code path)
         kind = "huge"
@@ -38,7 +38,7 @@ def gen_case(ctx, i):
         maps = np.zeros(shp)
         Hh, Ww = shp[-2:]
         for c_ in range(shp[1]):
-            for _ in range(150):  # isolated cells, tied neighbour pairs and small plateaus, sparse enough to keep the number of peaks small
+            for _ in range(40):  # isolated cells, tied neighbour pairs and small plateaus; few peaks: refinement copies the whole map once per peak
                 y_, x_ = int(r.integers(0, Hh)), int(r.integers(0, Ww))
                 v_ = float(r.choice([0.5, 0.75, 1.0]))
                 maps[0, c_, y_, x_] = v_
